@@ -5,7 +5,7 @@ usage: try_seed.py <dir with patch.diff [demo.py notes.md]> [--baseline] [--keep
            (forces --baseline and all properties)."""
 import subprocess, sys, os, json, shutil, re
 
-d = sys.argv[1].rstrip('/')
+d = os.path.abspath(sys.argv[1].rstrip('/'))
 args = sys.argv[2:]
 keep = None
 if '--keep' in args:
@@ -74,7 +74,7 @@ if keep:
     dst = '/verif/seeded/%s' % keep
     os.makedirs(dst, exist_ok=True)
     for f in ('patch.diff', 'demo.py', 'notes.md'):
-        if os.path.exists(os.path.join(d, f)):
+        if os.path.exists(os.path.join(d, f)) and os.path.abspath(d) != os.path.abspath(dst):
             shutil.copy(os.path.join(d, f), os.path.join(dst, f))
     prop = re.match(r'C\d\d', keep).group(0)
     notes = open(os.path.join(d, 'notes.md')).read() if os.path.exists(os.path.join(d, 'notes.md')) else ''
@@ -99,5 +99,7 @@ if keep:
         'history': old.get('history', []),
         'agent_notes_file': 'notes.md' if notes else None,
     }
+    for k_, v_ in old.items():
+        out.setdefault(k_, v_)      # round, first_try, rule_that_catches_it, ... written by hand
     json.dump(out, open(os.path.join(dst, 'meta.json'), 'w'), indent=1)
     print('kept in', dst)
